@@ -323,17 +323,23 @@ def write_replay(mod, payload):
     return path
 
 
-def shrink(mod, cassis, sc, fails):
-    """Greedy delta debugging with `fails(sc) -> msg or None` as the test."""
+def is_timeout_msg(msg):
+    return bool(msg) and "did not finish within" in msg
+
+
+def shrink(mod, cassis, sc, fails, wall_s=240):
+    """Greedy delta debugging with `fails(sc) -> msg or None` as the test; bounded in candidates and in wall time (a
+    hanging implementation costs CASE_TIMEOUT_S per failing candidate)."""
     if not hasattr(mod, "shrink_candidates"):
         return sc
     budget = 400
+    deadline = time.time() + wall_s
     progress = True
-    while progress and budget > 0:
+    while progress and budget > 0 and time.time() < deadline:
         progress = False
         for cand in mod.shrink_candidates(sc):
             budget -= 1
-            if budget <= 0:
+            if budget <= 0 or time.time() > deadline:
                 break
             try:
                 if fails(cand):
@@ -379,11 +385,16 @@ def run_subsuite(sub, ctx, label=None):
     scenarios = list(sub.generate(rng, tier))
     terms, fails = [], {}
     observations = []
+    n_timeouts = 0
     for i, sc in enumerate(scenarios):
+        if n_timeouts >= 3:  # hanging implementation: see run_check
+            observations.append(None)
+            continue
         obs, msg = impl_and_oracle(sub, cassis, sc)
         observations.append(obs)
         if msg:
             fails[i] = msg
+            n_timeouts += 1 if is_timeout_msg(msg) else 0
         if obs is not None:
             try:
                 t = sub.render(sc, obs)
@@ -395,7 +406,7 @@ def run_subsuite(sub, ctx, label=None):
     results = run_shards(write_shards(sub, terms), jobs=getattr(sub, "SHARD_JOBS", 8)) if terms else []
     reported = 0
     for i, msg in sorted(fails.items()):
-        if reported >= 5:
+        if reported >= 5 or (reported >= 1 and is_timeout_msg(msg)):
             break
         small = shrink(sub, cassis, scenarios[i], lambda c: impl_and_oracle(sub, cassis, c)[1])
         out.append((f"{label}: oracle", False, (impl_and_oracle(sub, cassis, small)[1] if small is not scenarios[i] else None) or msg,
@@ -465,11 +476,17 @@ def run_check(mod, tier, seed):
     scenarios.extend(mod.generate(rng, tier))
     observations = []
     oracle_fail = []
+    n_timeouts = 0
     for i, sc in enumerate(scenarios):
+        if n_timeouts >= 3:  # the implementation hangs: three witnesses are enough, the rest would cost CASE_TIMEOUT_S each
+            observations.append(None)
+            continue
         obs, msg = impl_and_oracle(mod, cassis, sc)
         observations.append(obs)
         if msg:
             oracle_fail.append((i, msg))
+            if is_timeout_msg(msg):
+                n_timeouts += 1
 
     # 3. model in Coq on the same cases
     terms = []
@@ -539,7 +556,12 @@ def run_check(mod, tier, seed):
                                   "seed": seed, "tier": tier})
         violations.append((path, ""))
 
+    timeouts_reported = 0
     for i, msg in oracle_fail[:50]:
+        if is_timeout_msg(msg):
+            timeouts_reported += 1
+            if timeouts_reported > 1:
+                continue
         report_counterexample(scenarios[i], msg, "oracle on generated case")
     for name, ok, detail, *rest in extra:
         if not ok and rest and rest[0] is not None:
